@@ -31,8 +31,20 @@ import (
 	"time"
 )
 
+// defaultVerifDir is the directory the runner lives in (<dir>/bin/fsim), so that a snapshot of /verif works on its own files.
+func defaultVerifDir() string {
+	if exe, err := os.Executable(); err == nil {
+		if d := filepath.Dir(filepath.Dir(exe)); d != "" {
+			if _, err := os.Stat(filepath.Join(d, "sim", "props.d")); err == nil {
+				return d
+			}
+		}
+	}
+	return "/verif"
+}
+
 var (
-	verifDir = envOr("VERIF_DIR", "/verif")
+	verifDir = envOr("VERIF_DIR", defaultVerifDir())
 	repoDir  = envOr("VERIF_REPO", "/repo")
 	goBin    = envOr("VERIF_GO", "/opt/veriftools/go1.26.8/bin/go")
 )
@@ -251,7 +263,8 @@ func build(pkgs []string, verbose bool) string {
 	cacheRoot := filepath.Join(verifDir, ".work", "cache")
 	dir := filepath.Join(cacheRoot, hash)
 	os.MkdirAll(dir, 0o755)
-	// lock the cache directory against concurrent fsim processes
+	// mark the cache directory as in use by this process (pruning skips it), then lock it for building
+	os.WriteFile(filepath.Join(dir, fmt.Sprintf(".inuse-%d", os.Getpid())), nil, 0o644)
 	unlock := lockDir(dir)
 	defer unlock()
 
@@ -334,6 +347,21 @@ func lockDir(dir string) func() {
 	}
 }
 
+// inUse reports whether a live fsim process has marked the cache directory.
+func inUse(dir string) bool {
+	marks, _ := filepath.Glob(filepath.Join(dir, ".inuse-*"))
+	live := false
+	for _, m := range marks {
+		pid, _ := strconv.Atoi(strings.TrimPrefix(filepath.Base(m), ".inuse-"))
+		if pid > 0 && exec.Command("kill", "-0", strconv.Itoa(pid)).Run() == nil {
+			live = true
+		} else {
+			os.Remove(m)
+		}
+	}
+	return live
+}
+
 func pruneCaches(root, keep string, n int) {
 	ents, err := os.ReadDir(root)
 	if err != nil {
@@ -350,6 +378,9 @@ func pruneCaches(root, keep string, n int) {
 			continue
 		}
 		if _, err := os.Stat(filepath.Join(p, ".lock")); err == nil {
+			continue
+		}
+		if inUse(p) {
 			continue
 		}
 		fi, err := d.Info()
